@@ -135,6 +135,10 @@ type VNodeConfig struct {
 	QuaiCoinbase common.Address
 	QiCoinbase   common.Address
 	GasPrice     *big.Int
+	// SnapshotLimit > 0 gives the zone's state processor a state snapshot tree (the flat
+	// account/storage layer production nodes run with, CacheConfig.SnapshotLimit = 256 by default);
+	// 0 = every read goes to the tries
+	SnapshotLimit int
 }
 
 type VNode struct {
@@ -257,7 +261,7 @@ func vMkSlice(cfg *VNodeConfig, ctx int, db ethdb.Database, fresh bool, logger *
 	txc.Rejournal = time.Hour
 	var lim uint64 = 0
 	eng := []consensus.Engine{VFakeEngine{}, VFakeEngine{}}
-	sl, err := NewSlice(db, mcfg, pow, &txc, &lim, &cc, []common.Location{VZoneLoc}, 0, nil, eng, &CacheConfig{TrieCleanLimit: 16, TrieDirtyLimit: 16, SnapshotLimit: 0}, vm.Config{}, gen, logger)
+	sl, err := NewSlice(db, mcfg, pow, &txc, &lim, &cc, []common.Location{VZoneLoc}, 0, nil, eng, &CacheConfig{TrieCleanLimit: 16, TrieDirtyLimit: 16, SnapshotLimit: cfg.SnapshotLimit}, vm.Config{}, gen, logger)
 	if err != nil {
 		return nil, common.Hash{}, err
 	}
@@ -409,7 +413,9 @@ func (n *VNode) Build(o VBuildOpts) (*types.WorkObject, error) {
 // valid block with these transactions on this parent).
 type VForeignRefused struct{ Err error }
 
-func (e VForeignRefused) Error() string { return "foreign assembly refused by Process: " + e.Err.Error() }
+func (e VForeignRefused) Error() string {
+	return "foreign assembly refused by Process: " + e.Err.Error()
+}
 func (e VForeignRefused) Unwrap() error { return e.Err }
 
 var vRemoteLocal = regexp.MustCompile(`^invalid (avgTxFees|totalFees) used \(remote: (\d+) local: (\d+)\)`)
